@@ -7,7 +7,7 @@ From Coq Require Import String.
 From Boltons Require Import Lib.Prelude Lib.C06_Text Spec.C06_Spec Model.C06_Model Gen.C06_Gen Gen.C06_Src
   Proofs.C06_SrcEq
   Proofs.C06_Codec Proofs.C06_Utf8 Proofs.C06_Quote Proofs.C06_Lists Proofs.C06_Round Proofs.C06_Legal
-  Proofs.C06_Refine Proofs.C06_Ports Proofs.C06_NoAuth Proofs.C06_NoAuthMin Proofs.C06_Shape Proofs.C06_Parsed Proofs.C06_QuoteMin Proofs.C06_Parts Proofs.C06_RoundMin Proofs.C06_Total
+  Proofs.C06_Guard Proofs.C06_Refine Proofs.C06_Ports Proofs.C06_NoAuth Proofs.C06_NoAuthMin Proofs.C06_Shape Proofs.C06_Parsed Proofs.C06_QuoteMin Proofs.C06_Parts Proofs.C06_RoundMin Proofs.C06_Total
   Proofs.C06_GenOk.
 Open Scope N_scope.
 
@@ -390,6 +390,29 @@ Example C06_ex_noauth :
   /\ (do u <- url_init gen_tables id_oracles (Tx "../a%3Ab/c;d#f");
       do t1 <- to_text gen_tables id_oracles true u; MOk (t1, noscheme t1)) = MOk (Tx "../a:b/c;d#f", true).
 Proof. vm_compute. split; reflexivity. Qed.
+
+(* THE FULL-QUOTING FIXED POINT IN ONE STATEMENT: for every text t that parses, u = URL(t), under the
+   explicit executable guard fx_guard (Proofs/C06_Guard.v: decoded components scalar after NFC, keyed
+   parameters, port_wf, and EITHER no host, no userinfo, not the empty reference and - when scheme-less -
+   a rendered path that does not look like "scheme:"  OR  an authority whose host is a name/IPv4/IDN host the
+   idna codec encodes to a host text, decodes and re-encodes identically  OR  an IPv6 literal).
+   _partial: outside the guard (userinfo with an empty host, hosts the codec mangles, scheme-less
+   references rendering with ':' in the first segment) the law is only checked per case.  The check's
+   evidence reports how many generated well-formed references satisfy the guard. *)
+Theorem C06_fixpoint_full_guarded_partial : forall T O, tables_ok T = true ->
+  let nfc := o_nfc O in
+  nfc [] = [] -> (forall x, nfc (nfc x) = nfc x) -> (forall x, nfc x = [] -> x = []) ->
+  forall t u, url_init T O t = MOk u -> fx_guard T O u = true ->
+  forall t1 u1, to_text T O true u = MOk t1 -> url_init T O t1 = MOk u1 -> to_text T O true u1 = MOk t1.
+Proof. exact fixpoint_full_guarded. Qed.
+Print Assumptions C06_fixpoint_full_guarded_partial.
+
+Example C06_ex_guard :
+  map (fun t => match url_init gen_tables id_oracles t with MOk u => fx_guard gen_tables id_oracles u | _ => false end)
+      [Tx "http://u:p@h.com:8080/a%20b?k=v#f"; Tx "//h/p"; Tx "mailto:a@b"; Tx "../x?q"; Tx "urn:a:b"; Tx "/abs#f";
+       Tx "x:///p"; Tx "a%3Ab"; Tx "//u@/p"]
+  = [true; true; true; true; true; true; true; false; false].
+Proof. vm_compute. reflexivity. Qed.
 
 Theorem C06_fixpoint_full_v6_partial : forall T O, tables_ok T = true ->
   forall scheme sep user pw fam host port rest q frag,
